@@ -307,6 +307,27 @@ where
                         .map_err(|_| InternalError::from(ERRMSG_HANDLE_DROPPED))?;
                 }
             }
+            RxPacket::Pubrec(pubrec) => {
+                // PUBREC with an error reason ends the exchange: no PUBREL/PUBCOMP
+                // will follow, so the send quota slot is returned here.
+                if pubrec.reason as u8 >= 0x80
+                    && connection.send_quota != connection.remote_receive_maximum
+                {
+                    connection.send_quota += 1;
+                }
+
+                let rx_packet = RxPacket::Pubrec(pubrec);
+                let action_id = utils::rx_action_id(&rx_packet);
+
+                if let Some((_, sender)) =
+                    utils::linear_search_by_key(&session.awaiting_ack, action_id)
+                        .and_then(|pos| session.awaiting_ack.remove(pos))
+                {
+                    sender
+                        .send(Ok(rx_packet))
+                        .map_err(|_| InternalError::from(ERRMSG_HANDLE_DROPPED))?;
+                }
+            }
             RxPacket::Pubrel(pubrel) => {
                 let packet_id = pubrel.packet_identifier;
                 Self::ack::<PubcompReason>(tx, packet_id).await?
